@@ -1,7 +1,10 @@
 """Driver-level scenarios: JSON specs -> real run -> protocol lines -> model output -> diff, plus the
 property monitors that are evaluated on the *real* run (used to find a replayable failing input)."""
+import contextlib
 import math
 import multiprocessing
+import os
+import signal
 
 import numpy as np
 import pandas as pd
@@ -10,6 +13,26 @@ from . import common as C
 from . import drv, gen
 
 _manager = None
+
+
+class StepTimeout(Exception):
+    """a search() did not return within the watchdog limit (livelock candidate, C08)"""
+
+
+@contextlib.contextmanager
+def time_limit(seconds):
+    def handler(signum, frame):
+        raise StepTimeout(f"no return within {seconds}s")
+    old = signal.signal(signal.SIGALRM, handler)
+    signal.setitimer(signal.ITIMER_REAL, seconds)
+    try:
+        yield
+    finally:
+        signal.setitimer(signal.ITIMER_REAL, 0)
+        signal.signal(signal.SIGALRM, old)
+
+
+WATCHDOG_S = float(os.environ.get("VERIF_WATCHDOG_S", "20"))
 
 
 def manager():
@@ -125,7 +148,6 @@ def _script_val(v, as_np):
 
 
 def _run_one(opt, rec, c):
-    import contextlib
     import io
     ev0 = len(rec.events)
     rows0 = len(opt.results_mang.results_list)
@@ -134,7 +156,7 @@ def _run_one(opt, rec, c):
     exc = None
     sink = io.StringIO()
     try:
-        with contextlib.redirect_stdout(sink):
+        with contextlib.redirect_stdout(sink), time_limit(WATCHDOG_S):
             if c.via == "search":
                 opt.search(rec.obj, c.n_iter, max_time=c.max_time, max_score=c.max_score,
                            early_stopping=c.early_stopping, memory=c.memory,
